@@ -97,6 +97,26 @@ Theorem C07_order_invariant_preserved_by_core_call : forall FUEL hs a k o k',
   cstep FUEL hs a k = Some (o, k') -> EvictHost.OrdH (k_H k) -> EvictHost.OrdH (k_H k').
 Proof. exact CoreOrd.cstep_OrdH. Qed.
 
+(* Done is stable, on the runtime model: a command that is quiet (not aborted, ready and spawn queues empty) is not
+   changed AT ALL by run_until_settled; so once is_done() has answered true, every further is_done() / effects() /
+   events() finds the same heap and gives the same answers, and a host polling it is told Ready(None) at once - until
+   something is spawned on it or one of its wakers fires.  For every heap and every fuel >= 2 (Rt/DoneStable.v). *)
+From Crux Require Rt.DoneStable.
+Theorem C07_settling_a_quiet_command_changes_nothing : forall f x H,
+  x < length (cmds H) -> was_aborted x H = false -> c_ready (gcmd x H) = [] -> c_spawnq (gcmd x H) = [] ->
+  settle (S (S f)) x H = Some H.
+Proof. exact DoneStable.settle_of_a_quiet_command_changes_nothing. Qed.
+Theorem C07_done_is_stable : forall f x H,
+  x < length (cmds H) -> was_aborted x H = false -> c_ready (gcmd x H) = [] -> c_spawnq (gcmd x H) = [] ->
+  c_eff (gcmd x H) = [] -> c_evs (gcmd x H) = [] -> c_len (gcmd x H) = 0 ->
+  DoneStable.is_done_model (S (S f)) x H = Some (true, H).
+Proof. exact DoneStable.done_is_stable. Qed.
+Theorem C07_done_command_reports_done_to_its_host : forall f x w H,
+  x < length (cmds H) -> was_aborted x H = false -> c_ready (gcmd x H) = [] -> c_spawnq (gcmd x H) = [] ->
+  c_eff (gcmd x H) = [] -> c_evs (gcmd x H) = [] -> c_len (gcmd x H) = 0 ->
+  poll_next (S (S (S f))) x w H = Some (PNDone, ucmd x (set_atomic (Some w)) H).
+Proof. exact DoneStable.done_command_reports_done_to_its_host. Qed.
+
 (* A finished task stays finished and a task that is gone stays gone, through every step of the runtime on
    any command (so a JoinHandle that has once seen its task finish, or its task dropped, is never blocked
    again), for every fuel and heap. *)
